@@ -68,6 +68,8 @@ type Job struct {
 	MaxWall  int               `json:"max_wall_s"`
 	KeepTape bool              `json:"keep_tape"`
 	TapeLog  string            `json:"tape_log,omitempty"`
+	// RunTimeout: the worker's real-time watchdog limit per run in seconds (0 = default 40)
+	RunTimeout int `json:"run_timeout_s,omitempty"`
 }
 
 type Replay struct {
@@ -94,6 +96,7 @@ type Replay struct {
 var noEvidence bool
 var selftestInfo map[string]any
 var lateSelftest func() string
+var retriedHangs int
 
 var (
 	verifDir = "/verif"
@@ -240,7 +243,7 @@ func runWorker(worker string, job *Job, race bool, timeout time.Duration) (resul
 	}
 	st := stderr.String()
 	if hang {
-		return results, nil, tailStr(st, 1<<16), fmt.Errorf("run seed=%d of %s made no progress (watchdog); goroutine dump follows", started, job.Scenario)
+		return results, nil, tailStr(st, 1<<16), &hangError{seed: started, msg: fmt.Sprintf("run seed=%d of %s made no progress (watchdog); goroutine dump follows", started, job.Scenario)}
 	}
 	if len(st) > 1<<16 {
 		st = st[len(st)-(1<<16):]
@@ -619,6 +622,33 @@ func runCheck(prop, tier string, base uint64, plan []planItem, runsOverride, nw 
 					for _, r := range res {
 						ag.add(r)
 					}
+					if he, ok := err.(*hangError); ok {
+						// the limit is real time: on a machine that is overloaded or frozen for a
+						// while every worker trips at once.  The run gets a second chance alone,
+						// with a longer limit; only a second stall is reported
+						mu.Unlock()
+						j2 := &Job{Prop: prop, Scenario: wi.item.Scenario, Tier: tier, Seeds: []uint64{he.seed}, Args: wi.item.Args, RunTimeout: 240}
+						res2, crash2, st2, err2 := runWorker(worker, j2, wi.item.Race, 400*time.Second)
+						mu.Lock()
+						if err2 == nil && (len(res2) == 1 || crash2 != nil) {
+							for _, r := range res2 {
+								ag.add(r)
+							}
+							if crash2 != nil {
+								crash2.Tail = strings.Split(tailStr(st2, 6000), "\n")
+								ag.add(crash2)
+							}
+							retriedHangs++
+							mu.Unlock()
+							done := len(res) + 1
+							if done >= len(seeds) {
+								break
+							}
+							seeds = seeds[done:]
+							continue
+						}
+						err, st = fmt.Errorf("%v (and again when run alone: %v)", err, err2), st2
+					}
 					if err != nil {
 						infra = append(infra, fmt.Sprintf("%s: %v\n%s", wi.item.Scenario, err, tailStr(st, 3000)))
 						mu.Unlock()
@@ -676,6 +706,14 @@ func runCheck(prop, tier string, base uint64, plan []planItem, runsOverride, nw 
 	}
 	return report(prop, tier, base, t0, ag, infra, total, workerPlain, workerRace, plan, noShrink, genInfo)
 }
+
+// hangError: the worker's watchdog saw no progress in one run for its limit of real time.
+type hangError struct {
+	seed uint64
+	msg  string
+}
+
+func (e *hangError) Error() string { return e.msg }
 
 func tailStr(s string, n int) string {
 	if len(s) > n {
@@ -1079,6 +1117,9 @@ func writeEvidence(prop, tier string, base uint64, evals, reach, distinct int, s
 	}
 	if selftestInfo != nil {
 		cov["determinism_selftest"] = selftestInfo
+	}
+	if retriedHangs > 0 {
+		cov["runs_repeated_after_real_time_watchdog"] = retriedHangs
 	}
 	ev := map[string]any{
 		"property_id": prop,
